@@ -15,6 +15,7 @@ CFG = PropCfg(
               classify=lambda op, out: op.split(" ", 1)[0] + "->" + (out if len(out) < 6 else "list")),
      # the selection as wired into a real server: NewHopServer's getCert, names of every type (C01's harness)
      SuiteCfg("C10sni", binary="C01", stateless=True, parts_thorough=1, nontrivial=lambda ops, outs: True)],
+    extra_modules=["HopModel.Props.C20ClientCfg"],
     rule="suite C10sni (C01's harness): a real hopserver.NewHopServer with the virtual hosts srv.example, 10.0.0.* and \\xff* "
          "and no fallback; real clients over loopback UDP ask for names of every type (raw, unknown type byte, IPv4-typed with "
          "the address text as label, a label that is not UTF-8, empty): the certificate presented is the one of the first "
@@ -30,7 +31,9 @@ MANIFEST = {
     "text": "Proof (Lean 4, unbounded): C20_glob_iff shows the matcher model (leftmost-greedy, one backtrack point; "
             "total by a termination proof) returns true exactly when the input is the pattern with each '*' replaced "
             "by some string (inductive relation Matches), for all patterns and inputs; C20_matchHost_mem/_sorted and "
-            "C20_vhost_first/_none derive the host-block and virtual-host selection. The model is tied to glob.Glob, "
+            "C20_vhost_first/_none derive the host-block and virtual-host selection; C20_applied_mem/_order and "
+            "C20_unmatched_block_irrelevant say what applying means (Model/ClientCfg: the Global block with exactly the "
+            "matching blocks merged in file order; a block that does not match has no influence whatever it says). The model is tied to glob.Glob, "
             "ClientConfig.MatchHost and VirtualHosts.Match by an exhaustive small-alphabet differential run under "
             "recover (panics are an observable) plus random longer inputs.",
     "design_ref": "DESIGN.md 5.20",
